@@ -65,8 +65,18 @@ def _GenerateConstant(cv: LinearIR.ConstantValue) -> WebAssembly.Instruction:
     t = cv.Type
     if t.IsScalar():
         if isinstance(t, LinearIR.IntegerType):
+            # The immediate of i32.const is a signed 32-bit integer; an
+            # unsigned constant with the top bit set has the same bit pattern
+            # as the value minus 2^32
+            value = cv.Value
+            if t.Unsigned and 2**31 <= value < 2**32:
+                value -= 2**32
+            if not -(2**31) <= value < 2**31:
+                raise Exception(
+                    f"Unsupported constant: {cv.Value} is not a 32-bit {t}"
+                )
             return WebAssembly.Instruction(
-                WebAssembly.opcodes["i32.const"], (cv.Value,)
+                WebAssembly.opcodes["i32.const"], (value,)
             )
         elif isinstance(t, LinearIR.FloatType):
             return WebAssembly.Instruction(
